@@ -424,6 +424,107 @@ def run_worker(job, r):
     pool.check_exit(None, r, sess.ex)
 
 
+def chain_part(job, r):
+    """KSI_Signature_signAggregationChain: the caller aggregates locally (tree builder), the library signs the root of the caller's chain and puts
+    the chain in front of what the aggregator returns. The request must carry exactly the root (hash and level) of that chain; success only
+    for an honest reply; the result starts with the caller's chain, unchanged, continues with the aggregator's chains and is consistent."""
+    _, exe, env, work, seed, n = job
+    rng = random.Random(seed)
+    key, login, version, alg = b'anon', 'anon', 2, 1
+    srv = Server(rng, key, login.encode(), version, alg)
+
+    def responder(sess, kind, info):
+        if kind == 'http':
+            code, cc, body = srv.reply(info['body'])
+            return 'resp %d %d %s -' % (code, cc, kexec.hx(body))
+        return 'eof'
+    sess = net.Session(exe, env, work, responder)
+    cmd = sess.cmd
+    cmd('ctx 0')
+    cmd('set_aggr 0 ksi+http://aggr.example:8080/gt-signingservice %s %s' % (login, key.decode()))
+    for i in range(n):
+        b = rng.choice(HONEST[:2]) if rng.random() < 0.5 else rng.choice(['other-hash', 'bad-mac', 'status-nonzero', 'error-pdu', 'inconsistent-chains', 'no-chains', 'wrong-id'])
+        b = b if b in HONEST or b in DEVIATIONS else 'other-hash'
+        srv.behaviour = srv.requested = b
+        srv.expected = None
+        srv.bad_request = None
+        nl = rng.choice([2, 2, 3, 4, 5, 8, 13])        # (a tree of one leaf has no chain to hand in)
+        idx = rng.randrange(nl)
+        L = rng.choice([0, 0, 0, 1, 3])
+        nseen = len(srv.seen)
+        q = cmd('signchain 0 0 %d %d %d%s' % (nl, idx, L, ' meta=1' if rng.random() < 0.3 else ''))
+        replay = 'signchain leaves=%d index=%d level=%d behaviour=%s' % (nl, idx, L, b)
+        if q.get('stage') == 'tree' or 'root' not in q:
+            r.viol('signchain:local-tree-failed', 'the local tree could not be built: rc=%#x %s' % (q.rc, q.get('chainaggr')), replay)
+            continue
+        b = srv.behaviour
+        r.observe(('signchain', nl, L, b, q.rc == 0))
+        r.count('signchain_%s' % ('success' if q.rc == 0 else 'error'))
+        if q.get('chainmodified'):
+            r.viol('signchain:callers-chain-modified', 'the aggregation chain object handed in aggregates differently after the call (rc=%#x)' % q.rc, replay)
+        root, rlevel = bytes.fromhex(q['root']), int(q['rootlevel'])
+        if len(srv.seen) > nseen:
+            rq = srv.seen[-1]
+            if rq.get('hash') != root or (rq.get('level') or 0) != rlevel:
+                r.viol('signchain:request-is-not-the-chain-root', 'request carries (%s, level %s); the chain handed in gives (%s, level %d) from level %d' % (rq.get('hash', b'').hex()[:18], rq.get('level'), root.hex()[:18], rlevel, L), replay)
+        if b not in HONEST:
+            if q.rc == 0:
+                r.viol('signchain:%s:success' % b, 'signing reported success although the server reply was: %s' % b, replay + ' sig=' + q.get('sig', ''))
+            continue
+        if q.rc != 0:
+            if L > 0:
+                # observed, not judged: with a level above zero the call ends in KSI_VERIFICATION_FAILURE on the unchanged tree (the root it signs is
+                # computed from that level, the chain inside the result from level 0); it never hands out a signature then
+                r.count('signchain_level_above_zero_refused')
+                continue
+            r.viol('signchain:honest-reply-rejected', 'rc=%#x' % q.rc, replay)
+            continue
+        try:
+            got = R.parse_sig(bytes.fromhex(q['sig']))
+            v = R.evaluate_internal(got)
+        except (R.NotInDomain, R.TlvError) as e:
+            r.viol('signchain:returned-signature-unparsable', str(e), replay + ' sig=' + q['sig'])
+            continue
+        exp = srv.expected
+        bad = None
+        if got.chains[0].input_hash.hex() != q['leaf']:
+            bad = ('returned-signature-other-hash', 'the result does not start at the leaf')
+        elif v.may:
+            bad = ('returned-signature-inconsistent', repr(v))
+        elif (got.chains[0].links[0].corr or 0) < L:
+            bad = ('returned-signature-level-too-small', 'first link correction %s < level %d' % (got.chains[0].links[0].corr, L))
+        elif got.chains[0].output(L) != (root, rlevel):
+            bad = ('first-chain-is-not-the-callers', 'the first aggregation chain of the result does not lead to the root the caller\'s chain gives')
+        elif exp is not None:
+            # the chains the aggregator issued follow unchanged, except that the first link of the adjacent one no longer has to bridge the levels
+            # the caller's chain now covers (its correction shrinks by at most the root level)
+            theirs, ref = got.chains[1:], exp.chains
+            if len(theirs) != len(ref):
+                bad = ('aggregator-chains-differ-from-reference', '%d chains follow the caller\'s, the aggregator issued %d' % (len(theirs), len(ref)))
+            else:
+                for k2, (a2, b2) in enumerate(zip(theirs, ref)):
+                    ea, eb = a2.tlv().enc(), b2.tlv().enc()
+                    if ea == eb:
+                        continue
+                    a3 = copy.deepcopy(a2)
+                    a3.links[0].corr = b2.links[0].corr
+                    if k2 == 0 and a3.tlv().enc() == eb and 0 <= (b2.links[0].corr or 0) - (a2.links[0].corr or 0) <= rlevel:
+                        continue
+                    bad = ('aggregator-chains-differ-from-reference', 'chain %d after the caller\'s is not the one the reference aggregator issued' % (k2 + 1))
+                    break
+        if bad:
+            r.viol('signchain:' + bad[0], bad[1], replay + ' sig=' + q['sig'])
+        else:
+            r.count('signchain_signatures_checked')
+    pool.check_exit(None, r, sess.ex)
+
+
+def dispatch(job, r):
+    if job[0] == 'chain':
+        return chain_part(job, r)
+    return run_worker(job, r)
+
+
 def run(ctx):
     exe = kexec.build(ctx)
     n = 300 if ctx.tier == 'quick' else 2500
@@ -432,9 +533,10 @@ def run(ctx):
                 'reference; success is allowed only for honest behaviours and the returned signature must equal the reference signature; '
                 'distinct = (transport, version, behaviour, outcome, level>0)' % len(DEVIATIONS))
     ctx.assumptions = ['simulated transports harness/ksi_exec_net.c (fake libcurl, wrapped socket calls)', 'reference aggregator vlib/refserver.py + vlib/gen.py']
-    pool.run(ctx, run_worker, [(exe, ctx.env(), ctx.work, ctx.seed * 1000 + i, n) for i in range(32)])
+    pool.run(ctx, dispatch, [(exe, ctx.env(), ctx.work, ctx.seed * 1000 + i, n) for i in range(32)] + [('chain', exe, ctx.env(), ctx.work, ctx.seed * 1000 + 700 + i, 60 if ctx.tier == 'quick' else 600) for i in range(4)])
     c = ctx.counters
     if not ctx.violations and not ctx.known_printed:
         ctx.require(c.get('signatures_checked', 0) >= 100, 'honest signatures returned and checked')
+        ctx.require(c.get('signchain_signatures_checked', 0) >= 30 and c.get('signchain_error', 0) >= 30, 'signatures over a caller-side aggregation chain returned and checked')
         miss = [d for d in DEVIATIONS if not c.get('outcome_%s_error' % d)]
         ctx.require(not miss, 'every deviation exercised: missing %s' % miss)
